@@ -503,7 +503,7 @@ def main(ctx, replay):
     rng = random.Random(ctx.seed)
     info = C.prologue(ctx)
     if info["hbin"] is None:
-        raise RuntimeError("harness build failed:\n" + info.get("go_log", ""))
+        raise C.HarnessBuildFailed(info.get("go_log", ""))
     impl = Impl(ctx, info["hbin"])
     quick = ctx.tier == "quick"
     assumptions = [
